@@ -86,6 +86,7 @@ type consumerInfo struct {
 	may       map[*ssa.Function]bool           // contains (transitively) a point
 	strict    bool                             // when set, calls to may-functions count as points
 	errAware  bool                             // a function whose first result is an error succeeds when it returns nil
+	edgePoint func(pred, succ *ssa.BasicBlock) bool // taking this edge is a pass point (optional)
 	constMemo map[ssa.CallInstruction]bool
 }
 
@@ -158,6 +159,15 @@ func (m *Model) newConsumerInfo(base []*ssa.Function, expect *ssa.Function, univ
 }
 
 // newPassInfo computes must-pass-through summaries for arbitrary point predicates.
+// pendingEdgePoint: the edge hook of the next newPassInfo (it must be in place before the summaries are computed).
+var pendingEdgePoint func(pred, succ *ssa.BasicBlock) bool
+
+// newPassInfoOpts: an error-aware pass info with an edge hook.
+func (m *Model) newPassInfoOpts(callPoint func(ssa.CallInstruction) bool, okPoint func(*ssa.Call) bool, universe []*ssa.Function, edgePoint func(pred, succ *ssa.BasicBlock) bool) *consumerInfo {
+	pendingEdgePoint = edgePoint
+	return m.newPassInfo(callPoint, okPoint, universe, nil, "erraware")
+}
+
 func (m *Model) newPassInfo(callPoint func(ssa.CallInstruction) bool, okPoint func(*ssa.Call) bool, universe []*ssa.Function, skip []*ssa.Function, opts ...string) *consumerInfo {
 	ci := &consumerInfo{m: m, callPoint: callPoint, okPoint: okPoint, always: map[*ssa.Function]bool{}, onOK: map[*ssa.Function]bool{}, onFail: map[*ssa.Function]bool{}, may: map[*ssa.Function]bool{}}
 	for _, o := range opts {
@@ -165,6 +175,8 @@ func (m *Model) newPassInfo(callPoint func(ssa.CallInstruction) bool, okPoint fu
 			ci.errAware = true
 		}
 	}
+	ci.edgePoint = pendingEdgePoint
+	pendingEdgePoint = nil
 	skipSet := map[*ssa.Function]bool{}
 	for _, f := range skip {
 		if f != nil {
@@ -249,9 +261,12 @@ func (ci *consumerInfo) failureReturn(b *ssa.BasicBlock) bool {
 // of a callee which itself passes a point on every successful return.
 func (ci *consumerInfo) successReturn(b *ssa.BasicBlock) bool {
 	if ci.errAware {
-		if r, ok := b.Instrs[len(b.Instrs)-1].(*ssa.Return); ok && len(r.Results) == 1 && errorLike(b.Parent().Signature.Results().At(0).Type()) {
-			k, isK := r.Results[0].(*ssa.Const)
-			return isK && k.IsNil() // `return nil`: no error
+		if r, ok := b.Instrs[len(b.Instrs)-1].(*ssa.Return); ok && len(r.Results) >= 1 {
+			last := len(r.Results) - 1
+			if errorLike(b.Parent().Signature.Results().At(last).Type()) {
+				k, isK := r.Results[last].(*ssa.Const)
+				return isK && k.IsNil() // `return …, nil`: no error
+			}
 		}
 	}
 	if !isSuccessReturn(b) {
@@ -400,6 +415,9 @@ func (ci *consumerInfo) allCallees(c ssa.CallInstruction, pred func(*ssa.Functio
 // edgeConsumes: taking edge pred->succ implies consumption: the true edge of
 // an expectPeek/onOK bool result, or the non-nil edge of an onOK call result.
 func (ci *consumerInfo) edgeConsumes(pred, succ *ssa.BasicBlock) bool {
+	if ci.edgePoint != nil && ci.edgePoint(pred, succ) {
+		return true
+	}
 	for _, f := range expandFacts(edgeFact(pred, succ)) {
 		if vc := verdictCall(f.Cond); vc != nil {
 			if f.Holds && ci.okPoint(vc) {
@@ -457,6 +475,22 @@ func (ci *consumerInfo) edgeConsumes(pred, succ *ssa.BasicBlock) bool {
 				call, other = x, c.Y
 			} else if y, ok := storedCall(c.Y).(*ssa.Call); ok {
 				call, other = y, c.X
+			}
+			if ci.errAware && call == nil {
+				// `prog, err := load(…); if err != nil { return }`: the error component of a tuple result
+				for _, side := range []ssa.Value{c.X, c.Y} {
+					if ex, isEx := side.(*ssa.Extract); isEx {
+						if tc, isTC := ex.Tuple.(*ssa.Call); isTC && errorLike(ex.Type()) {
+							other := c.Y
+							if side == c.Y {
+								other = c.X
+							}
+							if k, isK := other.(*ssa.Const); isK && k.IsNil() && (c.Op == token.EQL) == f.Holds && ci.allCallees(tc, func(fn *ssa.Function) bool { return ci.onOK[fn] }) {
+								return true
+							}
+						}
+					}
+				}
 			}
 			if call == nil {
 				continue
